@@ -125,6 +125,19 @@ CHECKS.update({
             "Bounded: sequence length and the parameter grids; float results compared within 1e-9.",
             "DESIGN.md section 4, C20"),
 })
+
+CHECKS.update({
+    "C19": ("bounded exhaustive enumeration of CSV files (rows x orders x encodings x sources) and of trade sequences on a "
+            "virtual clock against the real sources",
+            "Every CSV file of <=2 (quick) / <=3 (thorough) rows over a 45-row alphabet in every order x 6 encodings x sort "
+            "on/off x 6 source variants (events in bijection with non-zero-volume rows, exact values, when = start + "
+            "period, sorted when requested); every OHLC 4-tuple on a 3-level grid through Bar's constructor; every "
+            "sequence of <=5 (quick) / <=6 (thorough) steps (trade at one of 8 window offsets incl. the last "
+            "millisecond's tail, or 'let the window flush') through the real RealTimeTradesToBar.main() on a virtual "
+            "clock, bar duration 1/60 s, flush delay 0/0.5, skip-first on/off, against a dict window->trades reference.",
+            "Bounded: row alphabet, file length, step depth; BOM-less UTF-16/32 excluded (not self-describing).",
+            "DESIGN.md section 4, C19"),
+})
 NOT_YET = "check not built yet (see DESIGN.md section 7 for the build order); no claim is made"
 
 
